@@ -106,3 +106,33 @@ for _ns, _tiers in ((3, ('quick', 'thorough')), (4, ('thorough',))):
 
 CLAIMS['C15'] += (' Also decided: the acceptance / clipping logic of MeshETurbo::_addWeights around an overridden linear solve (C15.c) and the row assembly of the projection matrix in '
                   'MeshETurbo::resetProjMatrix / MeshEStandard::resetProjMatrix around an overridden weight routine (C15.d: one row per valid sample, complete or empty, never partial).')
+
+# ---- C15.d2 (builder3): the REAL path of MeshETurbo::resetProjMatrix for one point of the closed grid domain (upper borders, top corner)
+_BDTUS = ['src/Mesh/MeshETurbo.cpp', 'src/Mesh/AMesh.cpp', 'src/Mesh/Delaunay.cpp', 'src/Matrix/NF_Triplet.cpp', 'src/Basic/Grid.cpp', 'src/Basic/Rotation.cpp',
+          'src/Basic/Indirection.cpp', 'src/Basic/Utilities.cpp', 'src/Basic/AStringable.cpp', 'src/Basic/ASerializable.cpp', 'src/Basic/VectorHelper.cpp',
+          'src/Geometry/GeometryHelper.cpp', 'src/Matrix/AMatrix.cpp', 'src/Matrix/AMatrixDense.cpp', 'src/Matrix/AMatrixSquare.cpp', 'src/Matrix/MatrixSquareGeneral.cpp',
+          'src/Matrix/MatrixRectangular.cpp']
+_BD_STUBS = ['AMatrixDense::_invert (Eigen PartialPivLU inverse): exact adjugate / determinant inverse of the 3x3 system on the same Eigen storage, 1 when the determinant is 0',
+             'NF_Triplet::add(irow, icol, value): recorded (row/column maxima updated as the real one does, no Eigen storage); MatrixSparse::resetFromTriplet: counted',
+             'Db::getSampleNumber: 1; Db::isActive: true; Db::getCoordinate (virtual slot of the raw Db): the symbolic point; AMesh::isCompatibleDb: 0 (compatible)',
+             'messerr / message / mesArg / mestitle: empty']
+_BD_ASSUME = ['real-arithmetic reading of the code (divisions by the determinant exact); native validation / replay compares the sums up to 1e-9 (relative to 1e6 for coordinates)',
+              'MeshETurbo and Db are raw storage; the mesh carries the real virtual table, a really constructed unrotated Grid, identity Indirections (no mask); ProjMatrix is an untouched raw buffer',
+              'origin |x0| < 1e6, mesh 0 < dx < 1e6 (far below the undefined value 1.234e30)']
+K('C15.d2', property='C15', engine='symex', harness='C15/border.cpp', entry='k_border_exact', tus=_BDTUS, defines={'all': {'VF_DX0': '1.', 'VF_DX1': '2.'}},
+  bounds={'quick': '2-D grid of 3x3 nodes, unrotated, arbitrary real origin and arbitrary real meshes dx != dy > 0, with and without polarisation, no mask; one sample at an arbitrary real '
+                   'point of the CLOSED grid domain [x0, x0 + 2 dx] x [y0, y0 + 2 dy] (lower and upper borders, all four corners), except points within 1e-6 dx below a grid line'},
+  timeout_ms={'quick': 120000, 'thorough': 900000}, validate={'quick': 40, 'thorough': 80}, validate_doubles='int',
+  what='MeshETurbo::resetProjMatrix on its real path: Grid::coordinateToIndicesInPlace, the shift of an upper-border point down by one node (in every dimension where it applies), '
+       '_addElementToTriplet, _addWeights (MSS, Grid::indiceToRank / indiceToCoordinate, Indirection, MatrixSquareGeneral storage, AMatrix::invert, prodMatVecInPlace), NF_Triplet::force: '
+       'the row of the point is not empty: exactly 3 entries in row 0 at three distinct grid nodes, weights in [0,1] that sum to one and reproduce both coordinates of the point (affine exactness)',
+  out='the Eigen LU inverse (replaced by the exact inverse); points within eps*dx below a grid line (C15.d2.band); masked grids; rotated grids; 1-D / 3-D; several samples (C15.d); rounding',
+  assumptions=_BD_ASSUME + ['the point is not within eps = EPSILON6 (relative to the mesh) below a grid line: floor(t + eps) == floor(t) for t = (x - x0)/dx in each dimension'],
+  stubs=_BD_STUBS)
+K('C15.d2.band', property='C15', engine='symex', harness='C15/border.cpp', entry='k_border_band', tus=_BDTUS,
+  bounds={'quick': '2-D grid of 3x3 nodes, unrotated, arbitrary real origin and meshes, with and without polarisation, no mask; one sample at ANY real point of the closed grid domain '
+                   '(the round-off guard band below the grid lines included)'},
+  timeout_ms={'quick': 120000, 'thorough': 900000}, validate={'quick': 40, 'thorough': 80}, validate_doubles='int',
+  what='as C15.d2 without the guard-band assumption: the row of the point is not empty (3 entries, distinct nodes), weights in [0,1], |sum - 1| <= 3e-6',
+  out='as C15.d2; reproduction of the coordinates inside the guard band',
+  assumptions=_BD_ASSUME, stubs=_BD_STUBS)
